@@ -163,6 +163,9 @@ func (t *Ticker) Reset(d Duration) {
 	t.stop.Store(false)
 }
 
+// Pending reports whether a delivered tick has not been consumed yet (0 or 1).
+func (t *Ticker) Pending() int { return len(t.ch) }
+
 // Fire delivers one tick (dropped, like a real ticker's, if the previous one has not been
 // consumed). A schedule point of the calling scenario thread.
 func (t *Ticker) Fire() {
